@@ -362,3 +362,31 @@ def d1_8(ctx):
     ctx.check(ok, ckey(rd, "bit-type-strings"), rd.node, "bit reads report BOOL, BOOL ranges report BOOL[k]", f"type strings of bit / BOOL-range reads changed: {types}", types=types)
     names = [c for c in tags if src(c.args[0]).replace('"', "'") == "request_data['user_tag']"]
     ctx.check(len(names) >= 3, ckey(rd, "user-tag"), rd.node, "results carry the user's tag name without the element suffix", "results no longer carry request_data['user_tag']")
+
+
+@rule(P, "D1.9", "T-DATAFLOW", floor=2)
+def d1_9(ctx):
+    """The BOOL-array index helper splits name and index at the same (last) bracket; _parse_tag_request uses it for both."""
+    fn = ctx.model.func("pycomm3.util:get_array_index")
+    f = fn.node
+    last_ops, first_ops = [], []
+    for c in walk(f):
+        if isinstance(c, ast.Call):
+            nm = call_name(c) or ""
+            arg0 = ctx.folder.eval(c.args[0], fn.module) if c.args else None
+            if nm.endswith((".rsplit", ".rfind", ".rindex", ".rpartition")) and arg0 == "[":
+                last_ops.append(src(c))
+            elif nm.endswith((".split", ".find", ".index", ".partition")) and arg0 == "[":
+                first_ops.append(src(c))
+            elif nm in ("strip_array",) or nm.endswith(".strip_array"):
+                first_ops.append(src(c))
+    ctx.check(bool(last_ops) and not first_ops, ckey(fn, "same-bracket"), f, "name and index are both taken at the last `[`",
+              f"get_array_index locates brackets with {first_ops} (first bracket) and {last_ops} (last bracket): for a nested path such as `udts[2].flags[5]` the name and the index come from different brackets", first=first_ops, last=last_ops)
+    rets = [r for r in walk(f) if isinstance(r, ast.Return)]
+    ok = len(rets) == 1 and isinstance(rets[0].value, ast.Tuple) and len(rets[0].value.elts) == 2
+    conv = any(isinstance(c, ast.Call) and call_name(c) == "int" for c in walk(f))
+    ctx.check(ok and conv, ckey(fn, "returns"), f, "returns (name, int index)", "get_array_index no longer returns (name, int(index))")
+    ptr = ctx.model.func(f"{LX}:LogixDriver._parse_tag_request")
+    use = [n for n in walk(ptr.node) if isinstance(n, ast.Assign) and isinstance(n.value, ast.Call) and (call_name(n.value) or "").endswith("get_array_index")]
+    ok = len(use) == 1 and isinstance(use[0].targets[0], ast.Tuple) and [atom_name(x) for x in use[0].targets[0].elts] == ["_tag", "idx"] and atom_name(use[0].value.args[0]) == "tag"
+    ctx.check(ok, ckey(ptr, "uses-helper"), use[0] if use else ptr.node, "the request's BOOL-array name and index come from one get_array_index(tag) call", "BOOL-array name and index are not taken from one get_array_index(tag) call")
